@@ -1,4 +1,4 @@
-// C16 (part 2) -- dilate / erode / opening / closing with symmetric structuring elements and
+// C16 (part 2) -- dilate / erode / opening / closing / morphological_gradient with symmetric structuring elements and
 // median_filter equal their per-pixel definitions; order, monotonicity and idempotence laws.
 // See DESIGN.md section 5, C16.  Destinations live in noise-filled arenas, sources are tight heap images.
 #include <boost/gil.hpp>
@@ -12,6 +12,60 @@
 #include "c15_util.hpp"
 
 namespace gil = boost::gil;
+
+// ---- channel models and content classes ---------------------------------------------------
+// Every instantiated channel type gets the same content classes; three of them concentrate on the
+// special values of the type (min, min+1, -1, 0, 1, max-1, max and their neighbours), so that "a pixel
+// equals a special value while a neighbour under the structuring element / in the window is more
+// extreme" occurs in every case, for every type.
+template <class T> struct MT {
+    static const bool is_float = false;
+    static double lo() { return (double)std::numeric_limits<T>::min(); }
+    static double hi() { return (double)std::numeric_limits<T>::max(); }
+    static double clamp(double v) { return std::min(hi(), std::max(lo(), v)); }
+    static double rnd(vh::rng& r) { return lo() + (double)r.below((uint64_t)(hi() - lo()) + 1); }
+    static double step(double v, int d) { return clamp(v + d); }              // neighbour of a value
+    static double special(vh::rng& r) {
+        const double sp[7] = {lo(), lo() + 1, -1, 0, 1, hi() - 1, hi()};
+        return clamp(sp[r.below(7)]);
+    }
+    static double bump(double v, vh::rng& r) { return clamp(v + (double)r.below(3) * (double)r.below(40)); }   // >= v
+    static T make(double v) { return (T)(long long)v; }
+};
+template <> struct MT<gil::float32_t> {
+    static const bool is_float = true;
+    static double lo() { return 0.0; }
+    static double hi() { return 1.0; }
+    static double clamp(double v) { return std::min(1.0, std::max(0.0, v)); }
+    static double rnd(vh::rng& r) { return (double)(float)r.unit(); }
+    static double step(double v, int d) { return clamp((double)std::nextafter((float)v, d > 0 ? 2.0f : -1.0f)); }
+    static double special(vh::rng& r) {
+        const float sp[7] = {0.0f, std::nextafter(0.0f, 1.0f), std::numeric_limits<float>::min(), 0.5f, std::nextafter(0.5f, 1.0f), std::nextafter(1.0f, 0.0f), 1.0f};
+        return (double)sp[r.below(7)];
+    }
+    static double bump(double v, vh::rng& r) { return r.below(3) == 0 ? v : clamp((double)(float)(v + r.unit() * 0.25)); }
+    static gil::float32_t make(double v) { return gil::float32_t((float)v); }
+};
+enum { CM_FULL, CM_FEW, CM_IMPULSE, CM_SPECIAL_MIX, CM_SPECIAL_ONLY, CM_SPECIAL_NEIGHBOURS, CM_N };
+static const char* cmname(int m) { static const char* n[CM_N] = {"full-range", "few-levels", "impulses", "special-mix", "special-only", "special-neighbours"}; return n[m]; }
+template <class T> void fill_content(std::vector<double>& v, int mode, vh::rng& r) {
+    typedef MT<T> M;
+    double centre = M::special(r);
+    for (double& x : v) {
+        switch (mode) {
+            case CM_FULL: x = M::rnd(r); break;
+            case CM_FEW: x = M::is_float ? (double)(float)(r.below(4) / 4.0) : M::clamp((double)r.below(4)); break;
+            case CM_IMPULSE: x = r.below(6) == 0 ? M::hi() : (r.below(6) == 0 ? M::lo() : M::step(M::lo(), +1)); break;
+            case CM_SPECIAL_MIX: x = r.coin() ? M::special(r) : M::rnd(r); break;      // half special values, half seeded
+            case CM_SPECIAL_ONLY: x = M::special(r); break;
+            default: {   // one special value and its immediate neighbours
+                int d = (int)r.below(3) - 1;
+                x = d == 0 ? centre : M::step(centre, d);
+                break;
+            }
+        }
+    }
+}
 
 // plain model image: v[c][y*w+x]
 struct plane_img {
@@ -37,7 +91,7 @@ template <class Image> void from_plane(plane_img const& p, Image& img) {
     auto v = gil::view(img);
     for (int y = 0; y < p.h; ++y)
         for (int x = 0; x < p.w; ++x)
-            for (int c = 0; c < p.nc; ++c) v(x, y)[c] = (ch_t)p.at(x, y, c);
+            for (int c = 0; c < p.nc; ++c) v(x, y)[c] = MT<ch_t>::make(p.at(x, y, c));
 }
 
 // structuring element: n x n, centred, entries 0/1, row-major se[r*n+c]
@@ -101,14 +155,18 @@ static selem make_se(int n, int kind, vh::rng& r) {
     return se;
 }
 
-enum { MOP_DILATE, MOP_ERODE, MOP_OPENING, MOP_CLOSING };
-static const char* mopname(int op) { static const char* n[] = {"dilate", "erode", "opening", "closing"}; return n[op]; }
+// morphological_gradient does not instantiate for float32 channels (pixel - pixel of a class-type channel in
+// detail::difference_impl); it is not named by the property, so that combination is simply not exercised.
+template <class SV, class DV, class K> void call_gradient(SV const& s, DV const& d, K const& k, std::true_type) { gil::morphological_gradient(s, d, k); }
+template <class SV, class DV, class K> void call_gradient(SV const&, DV const&, K const&, std::false_type) {}
+enum { MOP_DILATE, MOP_ERODE, MOP_OPENING, MOP_CLOSING, MOP_GRADIENT };
+static const char* mopname(int op) { static const char* n[] = {"dilate", "erode", "opening", "closing", "gradient"}; return n[op]; }
 
 template <class Image> void run_morphology(const char* pxname) {
     typedef typename Image::value_type P;
     typedef typename gil::channel_type<P>::type ch_t;
     const int NC = gil::num_channels<P>::value;
-    const double HI = (double)std::numeric_limits<ch_t>::max(), LO = (double)std::numeric_limits<ch_t>::min();
+    const double HI = MT<ch_t>::hi(), LO = MT<ch_t>::lo();
     const int maxdim = vh::thorough() ? 12 : 7;
     const int maxn = vh::thorough() ? 7 : 5;
     const int nrand = vh::thorough() ? 6 : 3;
@@ -121,22 +179,25 @@ template <class Image> void run_morphology(const char* pxname) {
             if (w == 4 && h == 3)
                 vh::sample(vh::cat("dilate/erode/opening/closing(", pxname, " ", w, "x", h, ", symmetric SE n=1,3,..", maxn,
                                    ") == max/min over the in-image neighbourhood; order, monotone, idempotent; dst in noise arena"));
+            const uint64_t mode_offset = r.below(CM_N);
+            uint64_t iter = 0;
             for (int n = 1; n <= maxn; n += 2)
                 for (int kind = 0; kind < 3 + nrand; ++kind) {
                     selem se = make_se(n, kind, r);
                     std::vector<float> kv(se.e.begin(), se.e.end());
                     gil::detail::kernel_2d<float> ker(kv.begin(), kv.size(), (std::size_t)(n / 2), (std::size_t)(n / 2));
-                    // source contents
+                    // source contents: the content classes rotate so that every class meets every SE size/kind over the cases
                     plane_img s(w, h, NC);
-                    const int mode = (int)r.below(3);
-                    for (double& x : s.v) x = mode == 0 ? LO + (double)r.below((uint64_t)(HI - LO) + 1) : mode == 1 ? (double)r.below(4) : (r.below(8) == 0 ? HI : LO + 1);
+                    const int mode = (int)((mode_offset + iter++) % CM_N);
+                    fill_content<ch_t>(s.v, mode, r);
                     plane_img s2 = s;        // pointwise >= s
-                    for (double& x : s2.v) x = std::min(HI, x + (double)r.below(60));
+                    for (double& x : s2.v) x = MT<ch_t>::bump(x, r);
+                    vh::obs(vh::cat("morph.content.", pxname, ".", cmname(mode)));
                     Image src, src2;
                     from_plane(s, src);
                     from_plane(s2, src2);
                     std::vector<unsigned char> snap = cu::snapshot(src);
-                    std::string ctx = vh::cat(pxname, " ", w, "x", h, " SE ", n, "x", n, " kind ", kind, ": ");
+                    std::string ctx = vh::cat(pxname, " ", w, "x", h, " SE ", n, "x", n, " kind ", kind, " content ", cmname(mode), ": ");
 
                     auto exec = [&](int op, int iters, Image const& in, plane_img const& want, const char* oracle) -> plane_img {
                         cu::arena<P> ar(w, h, r, 2, 2);
@@ -147,6 +208,7 @@ template <class Image> void run_morphology(const char* pxname) {
                             case MOP_ERODE: gil::erode(sv, dv, ker, iters); break;
                             case MOP_OPENING: gil::opening(sv, dv, ker); break;
                             case MOP_CLOSING: gil::closing(sv, dv, ker); break;
+                            case MOP_GRADIENT: call_gradient(sv, dv, ker, std::integral_constant<bool, !MT<ch_t>::is_float>()); break;
                         }
                         plane_img out = to_plane(gil::const_view(ar.real));   // whole arena; cropped below
                         plane_img got(w, h, NC);
@@ -154,7 +216,9 @@ template <class Image> void run_morphology(const char* pxname) {
                             for (int y = 0; y < h; ++y)
                                 for (int x = 0; x < w; ++x) {
                                     got.at(x, y, c) = out.at(x + 2, y + 2, c);
-                                    ar.set(x, y, c, want.at(x, y, c), cu::K_A);
+                                    double wv = want.at(x, y, c);
+                                    // a wanted value outside the channel range (gradient of a signed image) is not representable: not judged
+                                    ar.set(x, y, c, (wv < LO || wv > HI) ? got.at(x, y, c) : wv, cu::K_A);
                                 }
                         cu::cmp_result res = ar.compare(0.0);
                         if (res.outside_bad) vh::viol(vh::cat("outside-dst.", mopname(op), ".", pxname), ctx + res.first_outside);
@@ -187,6 +251,12 @@ template <class Image> void run_morphology(const char* pxname) {
                         if (!eq(OO, O, wit)) vh::viol(vh::cat("idempotent-opening.", pxname), ctx + wit);
                         if (!eq(CC, C, wit)) vh::viol(vh::cat("idempotent-closing.", pxname), ctx + wit);
                     }
+                    // morphological gradient = dilation - erosion (judged where the difference fits the channel type)
+                    if (!MT<ch_t>::is_float) {
+                        plane_img mG(w, h, NC);
+                        for (size_t i = 0; i < mG.v.size(); ++i) mG.v[i] = MT<ch_t>::is_float ? (double)((float)mD.v[i] - (float)mE.v[i]) : mD.v[i] - mE.v[i];
+                        exec(MOP_GRADIENT, 1, src, mG, "gradient-def");
+                    }
                     // iterations: 0 = copy, 2 = applied twice
                     exec(MOP_DILATE, 0, src, s, "iterations-0");
                     exec(MOP_ERODE, 0, src, s, "iterations-0");
@@ -202,10 +272,9 @@ template <class Image> void run_median(const char* pxname) {
     typedef typename Image::value_type P;
     typedef typename gil::channel_type<P>::type ch_t;
     const int NC = gil::num_channels<P>::value;
-    const double HI = (double)std::numeric_limits<ch_t>::max(), LO = (double)std::numeric_limits<ch_t>::min();
     const int maxdim = vh::thorough() ? 12 : 7;
     const int maxk = vh::thorough() ? 7 : 5;
-    const int reps = vh::thorough() ? 6 : 3;
+    const int reps = vh::thorough() ? 2 * CM_N : CM_N;
     std::string cls = vh::cat("median.", pxname);
     for (int w = 1; w <= maxdim; ++w)
         for (int h = 1; h <= maxdim; ++h) {
@@ -216,8 +285,9 @@ template <class Image> void run_median(const char* pxname) {
             for (int k = 1; k <= maxk; k += 2)
                 for (int rep = 0; rep < reps; ++rep) {
                     plane_img s(w, h, NC);
-                    const int mode = rep % 3;     // full range / few levels (many ties) / impulses
-                    for (double& x : s.v) x = mode == 0 ? LO + (double)r.below((uint64_t)(HI - LO) + 1) : mode == 1 ? (double)r.below(3) : (r.below(5) == 0 ? HI : LO + (double)r.below(2));
+                    const int mode = rep % CM_N;     // every content class for every k
+                    fill_content<ch_t>(s.v, mode, r);
+                    vh::obs(vh::cat("median.content.", pxname, ".", cmname(mode)));
                     Image src;
                     from_plane(s, src);
                     std::vector<unsigned char> snap = cu::snapshot(src);
@@ -239,7 +309,7 @@ template <class Image> void run_median(const char* pxname) {
                                 ar.set(x, y, c, win[win.size() / 2], edge ? cu::K_B : cu::K_A);
                             }
                     cu::cmp_result res = ar.compare(0.0);
-                    std::string ctx = vh::cat("median_filter ", pxname, " ", w, "x", h, " k=", k, ": ");
+                    std::string ctx = vh::cat("median_filter ", pxname, " ", w, "x", h, " k=", k, " content ", cmname(mode), ": ");
                     if (res.outside_bad) vh::viol(vh::cat("outside-dst.median.", pxname), ctx + res.first_outside);
                     if (res.bad[cu::K_A]) vh::viol(vh::cat("median-interior.", pxname, ".k", k), ctx + res.first[cu::K_A]);
                     if (res.bad[cu::K_B]) vh::viol(vh::cat("median-edge.", pxname, ".k", k), ctx + res.first[cu::K_B]);
@@ -258,11 +328,19 @@ int main(int argc, char** argv) {
 #if C16_MPART == 0
     run_morphology<gil::gray8_image_t>("gray8");
     run_morphology<gil::rgb8_image_t>("rgb8");
-#else
+#elif C16_MPART == 1
     run_median<gil::gray8_image_t>("gray8");
     run_median<gil::rgb8_image_t>("rgb8");
     run_median<gil::gray16_image_t>("gray16");
     run_morphology<gil::gray16s_image_t>("gray16s");
+#elif C16_MPART == 2
+    run_morphology<gil::gray8s_image_t>("gray8s");
+    run_morphology<gil::gray32f_image_t>("gray32f");
+#else
+    run_median<gil::gray8s_image_t>("gray8s");
+    run_median<gil::gray16s_image_t>("gray16s");
+    run_median<gil::gray32f_image_t>("gray32f");
+    run_morphology<gil::gray16_image_t>("gray16");
 #endif
     return vh::finish();
 }
